@@ -14,8 +14,8 @@ LEVEL = "proof"
 EXTRA_PROPS = ["QuantemModel.Props.C19Ext", "QuantemModel.Props.C19Ext2"]   # growth 6: refinement of whole histories to a simple map spec
 MANIFEST_ENTRY = {
     "category": "proof",
-    "text": "Lean 4 theorems over an executable model of config.py (assoc-list dicts, canonical '-'/'_' names, _assign with undo record, update/merge/refresh, collect/collect_yaml/_load_config_file, get with default/override_with, validate_device as (device string, device id) in EVERY device environment): get-after-set under the same and under the other '-'/'_' spelling (`get_assign_twin`), sibling preservation (frame), with-block exit restores the exact previous configuration for every assignment list (also nested inside other open blocks, `xenter_xexit_noop`), refresh = merge of defaults and idempotent, refresh(path) = merge of defaults followed by the user's files (`refreshFrom_spec`, `refreshFrom_missing`); device clause for all CUDA/MPS availabilities, device counts and current devices: whatever is accepted is cpu, or mps with MPS available, or cuda:n with CUDA available and n below the device count (`device_accepted_available`, converse `device_accepted_reachable`), accepted strings are exactly torch's cuda spelling or gpu/mps/cpu ignoring case (`device_string_forms`), a rejected request through set / with / update_defaults raises and leaves configuration AND accumulated defaults unchanged (`rejected_noop`), so rejected requests can be erased from any history (`rejected_history_erase`); and over WHOLE HISTORIES of set / with / update_defaults / refresh calls, raising or not (`hstep`/`hrun`, the transition function the driver itself runs): last writer wins (`lww_history`), also when the path is read with every component in its other spelling (`lww_history_twin`, from the `WellKeyed` invariant preserved by every operation), with-blocks are no-ops, the defaults list only grows, refresh after any history = merge of the accumulated defaults. The model is tied to the code on every run by an order-sensitive differential run of random op sequences (incl. with-blocks with bodies and raising bodies, refresh(path=dir of yaml/json files), set(config=other), falsy get defaults/overrides, degenerate key spellings) in the real and in six simulated device environments (torch availability answers stubbed from the harness process), direct streams for validate_device (tuple), update (all three priorities) and merge, a replay of the import-time initialisation from quantem.yaml, pinned public signatures, and a last-writer-wins reference map evaluated on the real module as the failing-input search.",
-    "note": "Trusted: Lean kernel + propext/Classical.choice/Quot.sound; the hand model is validated only by sampled correspondence; torch.device string parsing is a model parameter (`parseCuda`, compared on a list of spellings; torch's signed-byte wrap of indices >= 128 is outside it); CUDA/MPS environments other than the machine's own are simulated by stubbing torch.cuda/mps.is_available, current_device, set_device and NUM_DEVICES; what update_defaults does to a key it mentions is specified per item (`update_leaf_priority_spec`) but not lifted to a whole-mapping theorem (measured by the reference map); yaml parsing itself and file-system listing are parameters of `collect` (file contents enter the model already parsed); keys mixing '-' and '_' are outside the twin-spelling claims; `__exit__` after a body that replaced a section by a scalar raises from inside its walk and is outside the model (counted as exit-outside-model).",
+    "text": "Lean 4 theorems over an executable model of config.py (assoc-list dicts, canonical '-'/'_' names, _assign with undo record, update/merge/refresh, collect/collect_yaml/_load_config_file, get with default/override_with, validate_device as (device string, device id) in EVERY device environment): get-after-set under the same and under the other '-'/'_' spelling (`get_assign_twin`), sibling preservation (frame), with-block exit restores the exact previous configuration for every assignment list (also nested inside other open blocks, `xenter_xexit_noop`), refresh = merge of defaults and idempotent, refresh(path) = merge of defaults followed by the user's files (`refreshFrom_spec`, `refreshFrom_missing`); device clause for all CUDA/MPS availabilities, device counts and current devices: whatever is accepted is cpu, or mps with MPS available, or cuda:n with CUDA available and n below the device count (`device_accepted_available`, converse `device_accepted_reachable`), accepted strings are exactly torch's cuda spelling or gpu/mps/cpu ignoring case (`device_string_forms`), a rejected request through set / with / update_defaults raises and leaves configuration AND accumulated defaults unchanged (`rejected_noop`), so rejected requests can be erased from any history (`rejected_history_erase`); and over WHOLE HISTORIES of set / with / update_defaults / refresh calls, raising or not (`hstep`/`hrun`, the transition function the driver itself runs): last writer wins (`lww_history`), also when the path is read with every component in its other spelling (`lww_history_twin`, from the `WellKeyed` invariant preserved by every operation), with-blocks are no-ops, the defaults list only grows, refresh after any history = merge of the accumulated defaults. REFINEMENT TO A SIMPLE MAP SPEC (Props/C19Ext.lean, C19Ext2.lean): every history, of any length, of top-level set calls (any number of items, either spelling, scalar or nested-mapping values), with blocks, refresh and update_defaults calls registering top-level scalar defaults is mapped by the abstraction function `absm` (read through canonical_name under the key normal form) onto the run of a two-map spec - configuration map: overwrite per set item, write-if-absent-or-still-default per update_defaults item; defaults map: overlay of ALL registered items in order; refresh installs it (`flat_history_refines`, `flat_history_refines_defaults`, `spec_defaults_accumulate`); no call of such a history raises (`flat_history_never_raises`), keys with one normal form are exactly the two spellings of one key (`nkey_eq_cases`), get under either spelling returns the spec entry (`read_any_spelling`, `abs_get`, `flat_history_get`, `refresh_restores_accumulated`). The model is tied to the code on every run by an order-sensitive differential run of random op sequences (incl. with-blocks with bodies and raising bodies, refresh(path=dir of yaml/json files), set(config=other), falsy get defaults/overrides, degenerate key spellings) in the real and in six simulated device environments (torch availability answers stubbed from the harness process), direct streams for validate_device (tuple), update (all three priorities) and merge, a replay of the import-time initialisation from quantem.yaml, pinned public signatures, and a last-writer-wins reference map evaluated on the real module as the failing-input search; plus FIXED blocks (props/c19_r6.py, independent of the seed): 13-layer update_defaults histories with partial nested sections and refresh + sibling reads after each layer, both directions of the spelling equivalence on every operation at four nesting depths, four configuration stores alive at once through config=/defaults= (each against its own reference map), 14 keys per call / 6-level paths / prefix-related keys, with-blocks nested 4-5 deep left by exceptions, two-digit CUDA indices (12 simulated devices), a 14-file yaml directory.",
+    "note": "Trusted: Lean kernel + propext/Classical.choice/Quot.sound; the hand model is validated only by sampled correspondence; torch.device string parsing is a model parameter (`parseCuda`, compared on a list of spellings; torch's signed-byte wrap of indices >= 128 is outside it); CUDA/MPS environments other than the machine's own are simulated by stubbing torch.cuda/mps.is_available, current_device, set_device and NUM_DEVICES; what update_defaults does to a key it mentions is proved for whole mappings of top-level scalars over whole histories (`flat_history_refines_defaults`); for NESTED default mappings it is specified per item (`update_leaf_priority_spec`) and otherwise measured by the reference map; the refinement theorems cover top-level keys (values may be nested mappings), dotted paths are covered by `lww_history` / `lww_history_twin` / frame theorems, not by the map refinement; yaml parsing itself and file-system listing are parameters of `collect` (file contents enter the model already parsed); keys mixing '-' and '_' are outside the twin-spelling claims; `__exit__` after a body that replaced a section by a scalar raises from inside its walk and is outside the model (counted as exit-outside-model).",
     "technique": "Lean 4 proof (induction over key paths / op lists / histories, case analysis of the device dispatch) + model-vs-implementation correspondence",
 }
 RULE = ("random op sequences (set mapping/kwargs/kwargs-only/None-arg, set_device, with-set, enter/exit with bodies, get with default/override, "
@@ -23,7 +23,7 @@ RULE = ("random op sequences (set mapping/kwargs/kwargs-only/None-arg, set_devic
         "and in simulated device environments; a case is one op applied to a state; distinct non-trivial = distinct (op kind, outcome, nesting "
         "depth, twin-spelling used, state size bucket, device environment, inside an open with-block, default given, override given) with a "
         "non-empty state, plus (environment, outcome, value type) of the direct validate_device stream and (priority, outcome, defaults kind) of "
-        "the direct update stream")
+        "the direct update stream; the fixed round-6 blocks of props/c19_r6.py are counted with the same rule")
 TRUSTED = ["torch.device() string parsing (model parameter parseCuda; indices < 128) and the answers of torch.cuda/mps.is_available, "
            "torch.cuda.current_device, device_count (real on this machine, stubbed in the simulated environments)",
            "yaml.safe_load / pathlib glob + sorted (file contents and names enter the model as data); default yaml collection made empty via QUANTEM_CONFIG (hermetic)"]
